@@ -213,6 +213,17 @@ with req_group (g : progs) : bool :=
 
 Definition count (i : nat) (l : list nat) : nat := length (filter (Nat.eqb i) l).
 
+(* ------------------------------------------------------------------ the retry race
+   BaseOrchestrator.set_invocation_retry publishes RETRY (a status the runner may pick up: the blocking path
+   serves a waiting parent at once) and only then increments the counter, unless the generated fact says the
+   increment comes first.  Under the schedule "re-run before the increment lands" the max-retries test of the
+   next execution reads the counter without the retry being published. *)
+Definition lagging_view (n : nat) : nat := if gen_retry_incr_before_publish then n else pred n.
+
+Definition dist_leaf_racy (h : header) : res :=
+  loop (fun n m => gen_dist_exhausted (lagging_view n) m) gen_dist_incr gen_dist_requeues
+       h (Val 0, []) (fuel_of h) 0 0.
+
 (* ------------------------------------------------------------------ helpers for the harness *)
 (* serialiser oracle instance measured on the implementation: kinds whose arguments are dropped *)
 Definition tr_drop (kinds : list nat) (e : exn) : exn :=
